@@ -344,7 +344,7 @@ pub fn replay(args: &[String]) -> Value {
             let ordering = if vi == 1 {
                 Some(names.iter().enumerate().map(|(i, n)| NamedSymbol { name: Rc::new(n.clone()), id: 3 + 4 * i }).collect::<Vec<_>>())
             } else if partial {
-                Some(names.iter().enumerate().filter(|(i, _)| i % 2 == ci % 2).map(|(i, n)| NamedSymbol { name: Rc::new(n.clone()), id: 1 + 3 * i }).collect::<Vec<_>>())
+                Some(names.iter().enumerate().filter(|(i, _)| i % 2 == ci % 2).map(|(i, n)| NamedSymbol { name: Rc::new(n.clone()), id: if ci % 4 < 2 { 1 + i } else { 1 + 3 * i } }).collect::<Vec<_>>())
             } else {
                 None
             };
@@ -369,7 +369,7 @@ pub fn replay(args: &[String]) -> Value {
                 mism += 1;
                 *kinds.entry("tree".into()).or_insert(0) += 1;
                 report("tree", "C08", &txt, json!({"expected": c["t"], "got": got_tree}));
-                continue;
+                // the meaning is still compared: a tree that differs may or may not denote the same function
             }
             // names: all variables once, in id order; free variables exact, in id order
             let order: Vec<String> = if with_order {
